@@ -128,6 +128,12 @@ def gen_cases(tier, seed):
         cases.append({"id": "schedules-3-threads-lines", "sig": ["schedules", 3, "lines"], "kind": "schedules", "threads": 3, "lines": True, "bound": 2, "limit": 20000})
     for k in range(2 if tier == "quick" else 8):
         cases.append({"id": "free-running-%d" % k, "sig": ["free-running", k], "kind": "free", "k": k, "threads": 4, "iters": 60 if tier == "quick" else 400})
+    # the verifying side: URLs of two signers checked under both certificates by several threads at once (yields injected), and verification
+    # histories that contain a certificate that cannot be read
+    for k in range(3 if tier == "quick" else 20):
+        cases.append({"id": "verify-threads-%d" % k, "sig": ["verify-threads", k], "kind": "verify-threads", "k": k, "rounds": 12 if tier == "quick" else 60})
+    for k in range(2 if tier == "quick" else 10):
+        cases.append({"id": "verify-history-bad-certificate-%d" % k, "sig": ["verify-history", k], "kind": "verify-history", "k": k})
     return cases
 
 
@@ -522,6 +528,57 @@ def run_case(case, ctx):
             sigs.append(["schedule", case["threads"], case.get("lines", False), " ".join("%d%s" % (t, l[:1] if not case.get("lines") else l) for t, l in e)])
         extra["interleavings"] = sorted(" ".join("%d:%s" % (t, l) for t, l in e) for e in seen)[:40]
         extra["exhausted"] = exhausted
+    elif kind in ("verify-threads", "verify-history"):
+        from saml2_tophat.sigver import verify_redirect_signature
+        rng = random.Random("%s/%s" % (ctx.seed, case["id"]))
+        alg = rng.choice(sorted(ALGS))
+        urls = {"sp": signed_url(ctx.ents["sp"], ctx.req, "rs-a", alg), "sp2": signed_url(ctx.ents["sp2"], ctx.req2, "rs-b", alg)}
+        params = {o: dict((k_, up.unquote_plus(v_)) for k_, v_ in raw_params(u)) for o, u in urls.items()}
+        verifier = ctx.ents["idp"]
+        counters["urls_checked"] = 2
+        wrong = []
+
+        def verdict(owner_of_url, cert_owner):
+            got = library_verify(verifier, params[owner_of_url], ENT_KEYS[cert_owner])
+            counters["library_verdicts"] = counters.get("library_verdicts", 0) + 1
+            if got != (owner_of_url == cert_owner):
+                wrong.append((owner_of_url, cert_owner, got))
+        if kind == "verify-threads":
+            from vlib import interleave
+
+            def loop(first, second):
+                def run():
+                    for _ in range(case["rounds"]):
+                        verdict(first, first)
+                        verdict(second, first)
+                return run
+            res, errs, stats = interleave.run_threads([loop("sp", "sp2"), loop("sp2", "sp"), loop("sp", "sp2")], "%s/%s" % (ctx.seed, case["id"]), p=0.2)
+            counters["yields_injected"] = stats["yields_injected"]
+            for o1, o2 in (("sp", "sp"), ("sp2", "sp2"), ("sp", "sp2"), ("sp2", "sp")):      # and when everything is quiet again
+                verdict(o1, o2)
+            where = "several threads verifying under two certificates at once"
+        else:
+            bad_certs = ["", "AAAA", fed.cert_body(ENT_KEYS["sp"])[:200], "not base64 at all !!", fed.cert_body(ENT_KEYS["sp"]).replace("A", "B", 3)]
+            order = [("sp2", "sp2"), ("sp", "BAD"), ("sp", "BAD"), ("sp2", "BAD"), ("sp", "sp"), ("sp2", "BAD"), ("sp2", "BAD"), ("sp", "sp2")]
+            rng.shuffle(order)
+            for o1, o2 in [("sp2", "sp2")] + order:
+                if o2 == "BAD":
+                    bc = rng.choice(bad_certs)
+                    for attempt in (1, 2):        # the same unreadable certificate twice in a row
+                        try:
+                            got = bool(verify_redirect_signature(dict(params[o1]), verifier.sec.sec_backend, bc))
+                        except Exception:
+                            got = False
+                        counters["library_verdicts"] = counters.get("library_verdicts", 0) + 1
+                        if got:
+                            wrong.append((o1, "unreadable certificate %r (attempt %d)" % (bc[:20], attempt), got))
+                else:
+                    verdict(o1, o2)
+            where = "verification history with unreadable certificates in between"
+        if wrong:
+            viol.append({"key": "C15/verification-verdict-wrong-" + ("under-concurrency" if kind == "verify-threads" else "after-unreadable-certificate"),
+                         "what": "%s (alg %s): %d wrong verdict(s), e.g. URL of %s under the certificate of %s -> %s" % (where, alg, len(wrong), wrong[0][0], wrong[0][1], wrong[0][2])})
+        sigs.append([kind, case["k"]])
     elif kind == "free":
         old = sys.getswitchinterval()
         sys.setswitchinterval(1e-6)
@@ -551,7 +608,7 @@ def run_case(case, ctx):
     for v in viol:
         uniq.setdefault(v["key"] + v["what"][:60], v)
     return {"outcome": "violations" if viol else "held", "nontrivial": counters.get("urls_checked", 0) > 0, "violations": list(uniq.values())[:8],
-            "counters": counters, "sigs": sigs, "evals": max(1, counters.get("histories", 0) + counters.get("interleavings_executed", 0) + (1 if kind in ("inputs", "free", "rollover") else 0)),
+            "counters": counters, "sigs": sigs, "evals": max(1, counters.get("histories", 0) + counters.get("interleavings_executed", 0) + (1 if kind in ("inputs", "free", "rollover", "verify-threads", "verify-history") else 0)),
             "obs": extra}
 
 
